@@ -6,11 +6,11 @@ ROOT = os.path.dirname(os.path.dirname(os.path.abspath(__file__)))
 # id -> (level category, technique, level text, level note, DESIGN section)
 CHECKS = {
  "C01": ("exploration", "runtime monitoring: state-machine explorer (BFS over abstract states + random walks) with a signature re-verification monitor after every call",
-         "The real channel.StateMachine is driven through every operation of the complete alphabet (incl. wrong/foreign/replayed/short/empty/nil signatures at every index, forced updates, all phase setters) from every abstract state reachable within the depth bound, plus random walks of length 30; after every call (successful or not) the monitor re-verifies every signature of the current and the staging transaction with channel.Verify and requires it to survive the transaction wire format (EncodeSparseSigs/DecodeSparseSigs). Worlds live on one to three wallet backends (harness-registered ids 1 and 2 besides sim's 0); in split-key worlds a participant's keys differ between its backends and every AddSig for it must fail atomically. Held on the sequences executed.",
+         "The real channel.StateMachine is driven through every operation of the complete alphabet (incl. wrong/foreign/replayed/short/empty/nil signatures at every index, forced updates, all phase setters) from every abstract state reachable within the depth bound, plus random walks of length 30; after every call (successful or not) the monitor re-verifies every signature of the current and the staging transaction with channel.Verify and requires it to survive the transaction wire format (EncodeSparseSigs/DecodeSparseSigs). Worlds live on one to three wallet backends (harness-registered ids 1 and 2 besides sim's 0); in split-key worlds a participant's keys differ between its backends and every AddSig for it must fail atomically. A reused-state-object scenario (Update, AddSig, DiscardUpdate, the same *State changed in place, Update, replay of the old signature) is judged on an independent copy of the state. Held on the sequences executed.",
          "Trusted: channel.Verify/Sign of the sim backend (their binding to one state is C15's subject); explorer branching uses channel.RestoreStateMachine on harness-made snapshots; bounded depth.",
          "DESIGN.md §5 C01"),
  "C02": ("exploration", "runtime monitoring: differential test of Update/CheckUpdate/Init against an independent reference predicate over single-condition mutants",
-         "For generated (parameters, reachable current state) pairs every single-condition violation of the successor rules and valid successors are offered to the real machine; nil/error results are compared with a reference predicate written from the property statement; refused candidates must not be staged and nothing may panic. Candidates are also offered after SetRegistering/SetRegistered/SetWithdrawing and on machines restored with phase Acting (the rules concern the current state, not the phase).",
+         "For generated (parameters, reachable current state) pairs every single-condition violation of the successor rules and valid successors are offered to the real machine; nil/error results are compared with a reference predicate written from the property statement; refused candidates must not be staged and nothing may panic. Candidates are also offered after SetRegistering/SetRegistered/SetWithdrawing and on machines restored with phase Acting (the rules concern the current state, not the phase). Totals are also changed by exactly 2^64 with every entry still fitting a machine word.",
          "Trusted: the reference predicate (harness/internal/refmodel/successor.go); abstains where the statement is silent (backend list, version overflow).",
          "DESIGN.md §5 C02"),
  "C09": ("exploration", "runtime monitoring: state-machine explorer with a reference phase automaton compared step by step",
@@ -46,7 +46,7 @@ CHECKS = {
          "Trusted: the reference model; single ledger and the statement's domain (locked sub-channels are watched or archived). The scripted Register succeeds unless the history says it is refused (then the bookkeeping must not move; relaying that event is optional). The interval oracle's lower bound assumes a FIFO publish pipe whose capacity is read by reflection.",
          "DESIGN.md §5 C05, appendix B"),
  "C10": ("fault_enumeration", "runtime monitoring with fault injection: store frozen at every atomic write boundary of generated histories (memory: snapshot per boundary; LevelDB: re-run with later writes dropped, close, re-open), restored channel compared with live snapshots",
-         "For every history of the persisting state machine and every write boundary, RestoreChannel and RestorePeer must yield exactly the live machine's state before or after the interrupted operation (after, once its last write is in), and every restored staging signature must verify for the restored staged state; untouched sibling channels in the same store must come back unchanged at every boundary. Peers have one or several (also non-zero) backend ids, channels up to 101 participants and duplicate peer entries.",
+         "For every history of the persisting state machine and every write boundary, RestoreChannel and RestorePeer must yield exactly the live machine's state before or after the interrupted operation (after, once its last write is in), and every restored staging signature must verify for the restored staged state; the machine rebuilt from each matching restored channel with channel.RestoreStateMachine must show the same index, parameters, phase, current and staged transaction; untouched sibling channels in the same store must come back unchanged at every boundary. Peers have one or several (also non-zero) backend ids, channels up to 101 participants and duplicate peer entries.",
          "Trusted: a batch is atomic (LevelDB's guarantee); crash points are write boundaries of the sortedkv interface, not torn writes inside LevelDB. Histories are generated, boundaries within them enumerated exhaustively (memory) or sampled (LevelDB, quick tier).",
          "DESIGN.md §5 C10"),
  "C11": ("fault_enumeration", "runtime monitoring: every restorer view compared with a reference map after every step of generated create/advance/remove histories, plus differential key-set replay",
@@ -54,7 +54,7 @@ CHECKS = {
          "Trusted: the reference bookkeeping of the harness; histories are generated (every removal point within them is checked).",
          "DESIGN.md §5 C11"),
  "C18": ("exploration", "runtime monitoring: recorded relay histories checked against an exact sequential model, for linearizability (porcupine, nondeterministic model) and by exactly-once/conservation invariants under stress with the race detector",
-         "Recording consumers with unique envelope ids observe every hand-over at the relay's boundary; single-threaded histories must match the reference model step by step, short concurrent histories must be linearizable, long multi-producer histories must satisfy no-wrong-recipient / at-most-once / conservation / interval bounds at quiescence, the library's wire.Receiver read with short-lived contexts under concurrent puts must return every envelope exactly once, and the race detector must stay silent in relay, cache and receiver code.",
+         "Recording consumers with unique envelope ids observe every hand-over at the relay's boundary; single-threaded histories must match the reference model step by step, short concurrent histories must be linearizable, long multi-producer histories must satisfy no-wrong-recipient / at-most-once / conservation / interval bounds at quiescence, the library's wire.Receiver read with short-lived contexts under concurrent puts must return every envelope exactly once, an unread full wire.Receiver that is closed while a relay Put waits in it must release that Put so that the consumer behind it still gets every envelope exactly once, and the race detector must stay silent in relay, cache and receiver code.",
          "Trusted: the relay reference model (appendix A); quiescence by goroutine count in single-history child processes; porcupine v1.3.0. Reach is limited to the interleavings the scheduler and injected yields produced.",
          "DESIGN.md §5 C18, appendix A"),
  "C20": ("fault_enumeration", "runtime monitoring with fault injection: scripted per-ledger adjudicators/funders whose failures and completion order the harness controls, call logs on a logical clock",
